@@ -124,6 +124,17 @@ def classes():
             m = log.market
             idx = None
             if isinstance(m, IndexMarket):
+                # (asked BEFORE the implicit-time query below, which would recompute and refresh anything remembered)
+                # side channel for the C17 monitor: the index asked for with an EXPLICIT time (now, the step before, time 0),
+                # beside the components' own market prices at that time and their shares
+                tnow = m.get_time()
+                for tq in sorted({tnow, max(tnow - 1, 0), 0}):
+                    try:
+                        got = m.get_index(time=tq)
+                        comps = [(c.market_id, c.get_market_price(time=tq), c.outstanding_shares) for c in m.get_components()]
+                        CTX.index_probe.append([len(CTX.ev), kind, m.market_id, tq, got, comps])
+                    except Exception as e:  # noqa
+                        CTX.index_probe.append([len(CTX.ev), kind, m.market_id, tq, repr(e)[:80], []])
                 idx = A(m.get_index())
             ses = log.session
             row = [3, kind, ses.session_id, m.market_id, m.get_time(), bool(m.is_running), bool(ses.with_order_execution),
@@ -353,6 +364,7 @@ def run_case(case):
     CTX = c
     c.ev, c.batches, c.objs, c.my_orders, c.nconsult = [], [], [], {}, {}
     c.resubmitted = None
+    c.index_probe = []
     c.aseed, c.pmkt = case["aseed"], case.get("pmkt", 0.1)
     c.batch_sizes = case.get("batch_sizes", [0, 1, 1, 2, 3])
     c.malformed, c.malformed_done, c.malformed_at = case.get("malformed"), False, case.get("malformed_at", 0)
@@ -419,6 +431,7 @@ def run_case(case):
                 x[6] = o_.volume
             snap_[si] = tuple(x)
     res.update(events=c.ev, tape=prng.tape, batches=c.batches, funds=funds)
+    res["index_probe"] = getattr(c, "index_probe", [])
     res["final"] = [[fr(a.cash_amount), [a.asset_volumes[k] for k in sorted(a.asset_volumes)]] for a in sim.agents]
     return res
 
